@@ -121,7 +121,11 @@ theorem step_updateRetentionPolicy (hk : KeysAreNames d) (hs : KS d) (db rp u) :
       have hrn : r.name = k := (hk _ hmem).2 _ (alFind_mem hfr)
       split
       · exact StepOK.refl d
-      · next hclash =>
+      · next hren0 =>
+        have hclash : ¬ nameClash dbi rp u = true := by
+          intro hc; simp [renameError, hc] at hren0
+        have hnonempty : u.newName ≠ some "" := by
+          intro hc; unfold renameError at hren0; rw [if_neg hclash, if_pos hc] at hren0; cases hren0
         simp only
         split
         · exact StepOK.refl d
